@@ -246,7 +246,9 @@ func init() {
 				}
 				if !ok {
 					cls := "in-range-wrong"
-					if len(e.K) == 1 && e.K[0] < 0 {
+					if len(e.K) == 1 && e.K[0] < 0 && (e.Type != "jsonl" || (run.Exit != 0 && stdout == "" && strings.Contains(stderr, "cannot unmarshal"))) {
+						// for jsonl this class is a recorded finding: it is only used when the
+						// outcome is exactly that finding's (table indexer error, no output)
 						cls = "negative-in-range-wrong"
 					}
 					x.Viol(fmt.Sprintf("%s:%s:%s", e.Cmd, e.Type, cls), fmt.Sprintf("`%s` on a %s array of %d items (%s) gave stdout=%q exit=%d stderr=%q; expected element(s) %v", c.Block, e.Type, e.N, trunc(c.Vars[0].Value, 60), stdout, run.Exit, trunc(stderr, 200), e.Want), c, stdout, e.Want)
